@@ -1,10 +1,10 @@
 (* C01 -- Conforming data is accepted by every check mode (no false alarms).  Property theorems only.
-   Proved tiers: the RDH level (check sanity / check all without a target) and the ITS level (check sanity its / check all its)
-   for EVERY stream the grammars render (Spec/Grammar.v, Spec/GrammarIts.v; calibration data words are outside the word-level
-   grammar).  The stave tier (check all its-stave) is decided by the correspondence of the whole-run model and by the local
-   acceptance theorems of C13 (see DESIGN.md, C01); the composed invariant proof for that tier is not part of this file. *)
+   Proved for all five check modes: the RDH level (check sanity / check all without a target), the ITS level (check sanity its /
+   check all its) and the stave level (check all its-stave) for EVERY stream the grammars render (Spec/Grammar.v,
+   Spec/GrammarIts.v, Spec/GrammarStave.v).  Calibration data words are outside the word-level grammar. *)
 From Coq Require Import List NArith Bool.
-From FP Require Import Model.Base Model.Rdh Model.RdhChecks Model.CdpRunning Model.Scanner Model.Link Spec.Grammar Spec.GrammarIts Spec.GrammarItsCheck Proofs.C01_rdh Proofs.C01_its Proofs.C01_check.
+From FP Require Import Model.Base Model.Rdh Model.RdhChecks Model.CdpRunning Model.Scanner Model.Link Spec.Grammar Spec.GrammarIts Spec.GrammarItsCheck Proofs.C01_rdh Proofs.C01_its Proofs.C01_check Proofs.C01_stave Proofs.C01_stave_check.
+From FP Require Import Model.Alpide Spec.GrammarStave Spec.GrammarStaveCheck.
 From FP Require Gen.Facts.
 Import ListNotations.
 Open Scope N_scope.
@@ -47,11 +47,31 @@ Proof. exact link_witness_sound. Qed.
 Theorem C01_membership_test_nonvacuous : link_witness Example.ld = Some [Example.ih 10; Example.ih 11].
 Proof. vm_compute. reflexivity. Qed.
 
+(* the stave tier: if moreover every trigger packet is stave-conforming -- its data words, grouped by lane, are the bytes of ALPIDE
+   lanes as the independent encoder produces them (any hits, regions, busy words, idle bytes), every lane with at least one chip, no
+   fatal announcement, no chip twice, all chips of all lanes in one bunch crossing, an inner-barrel lane carrying exactly the chip named
+   like the lane, and the lanes are the barrel's (one inner group of 3 / 8 / 14) -- `check all its-stave` emits nothing but the
+   ALPIDE statistics messages (no error) *)
+Theorem C01_stave_tier : forall ld ihs ly ps, wf_link_stave ld ihs ly -> map strip ps = render_link ld ->
+  exists m, run_validator stave_cfg ps = Ok m /\ quiet m.
+Proof. exact c01_stave_link. Qed.
+Theorem C01_stave_tier_checked : forall ld ihs ly ps, stave_witness ld = Some (ihs, ly) -> map strip ps = render_link ld ->
+  exists m, run_validator stave_cfg ps = Ok m /\ quiet m.
+Proof. exact (fun ld ihs ly ps H => c01_stave_link ld ihs ly ps (stave_witness_sound ld ihs ly H)). Qed.
+Theorem C01_stave_membership_test_nonvacuous : stave_witness ExampleS.ldS = Some ([ExampleS.ihS 10], L_Inner).
+Proof. vm_compute. reflexivity. Qed.
+Theorem C01_stave_nonvacuous : wf_link_stave ExampleS.ldS [ExampleS.ihS 10] L_Inner /\ length (render_link ExampleS.ldS) = 3%nat.
+Proof. exact ExampleS.example_stave. Qed.
+
 Theorem C01_its_nonvacuous : wf_link_its Example.ld [Example.ih 10; Example.ih 11] /\ length (render_link Example.ld) = 8%nat.
 Proof. exact Example.example_wf. Qed.
 
 Print Assumptions C01_rdh_tier.
 Print Assumptions C01_its_tier.
+Print Assumptions C01_stave_tier.
+Print Assumptions C01_stave_nonvacuous.
+Print Assumptions C01_stave_tier_checked.
+Print Assumptions C01_stave_membership_test_nonvacuous.
 Print Assumptions C01_its_nonvacuous.
 Print Assumptions C01_its_tier_checked.
 Print Assumptions C01_membership_test_nonvacuous.
